@@ -308,11 +308,11 @@ func specEncode(r *Rng, m *ISet, ch encChoice) []byte {
 // ---------------------------------------------------------------- frozen layout
 
 type frozenInfo struct {
-	N                       int
-	NBitmap, NRun, NArray   int
-	Types                   []byte
-	Counts                  []uint16
-	Keys                    []uint16
+	N                     int
+	NBitmap, NRun, NArray int
+	Types                 []byte
+	Counts                []uint16
+	Keys                  []uint16
 }
 
 // frozenDecode parses the CRoaring frozen layout independently.
